@@ -5,12 +5,14 @@ PID = "C13"
 
 def check(tier, seed):
     q = tier == "quick"
-    return G.generic_check(PID, "exploration", tier, seed, coq=False,
-        rule='time budget hook on a grid of remaining time (1 ms .. 10 h), increment (0 .. 3x the time), moves-to-go (0..80), game phase (0..24, both colours), move times: budget <= clock, n*budget <= time + n*inc (n = movestogo or 15), movetime margin; real searches: movetime (result within movetime + 250 ms), depth (exactly d iterations unless single move), nodes (overshoot <= 130), searchmoves (best move listed); a case = one grid point or one search',
-        streams=[dict(name='budget_grid', kind="monitor", shards=lambda t: 2 if t == "quick" else 16,
-                      args=lambda t, s, sh, path: ['c13-grid', 20000 if q else 400000, s * 1000 + sh]),
+    return G.generic_check(PID, "proof", tier, seed, coq=True,
+        rule='obligations: theorems of coq/properties/C13.v over TimeCtl.v (bit-exact binary64 model of setupTimeControl, all inputs below 2^53 ns); correspondence: the real budget hook on a grid evaluated by time_case_ok inside Coq; monitor: time budget hook on a grid of remaining time (1 ms .. 10 h), increment (0 .. 3x the time), moves-to-go (0..80), game phase (0..24, both colours), move times: budget <= clock, n*budget <= time + n*inc (n = movestogo or 15), movetime margin; real searches: movetime (result within movetime + 250 ms), depth (exactly d iterations unless single move), nodes (overshoot <= 130), searchmoves (best move listed); a case = one grid point or one search',
+        streams=[dict(name="budget_model_vs_hook", kind="coqcases", shards=lambda t: 2 if t == "quick" else 16,
+                      args=lambda t, s, sh, path: ["c13-grid", 500 if t == "quick" else 1200, s * 1000 + 500 + sh, path]),
+                 dict(name='budget_grid', kind="monitor", shards=lambda t: 2 if t == "quick" else 16,
+                      args=lambda t, s, sh, path: ['c13-grid', 20000 if t == "quick" else 400000, s * 1000 + sh]),
                  dict(name='limit_searches', kind="monitor", shards=lambda t: 2 if t == "quick" else 8,
-                      args=lambda t, s, sh, path: ['c13-limits', 30 if q else 400, s * 1000 + sh])])
+                      args=lambda t, s, sh, path: ['c13-limits', 30 if t == "quick" else 400, s * 1000 + sh])])
 
 
 def replay(path):
